@@ -43,6 +43,10 @@ func (p *Path) goValue(fr *frame, it iface, verb byte) (gv interface{}, sym valu
 	}
 	t := it.t
 	// error / Stringer take precedence for %v %s %q
+	if isProtoMessageType(t) {
+		// String() of a protobuf message is prototext through protobuf-go's runtime
+		return fmtOpaque{"<" + types.TypeString(t, pkgNameQualifier) + ">"}, nil, false
+	}
 	if verb == 'v' || verb == 's' || verb == 'q' {
 		if _, isPtr := it.v.(*value); !isPtr || it.v.(*value) != nil {
 			for _, mn := range []string{"Error", "String"} {
